@@ -17,6 +17,7 @@ META = {
     "not_decided": "the universally quantified string claims (decode equality, idempotence) for all inputs",
     "assumptions": ["Value_T/StringStream_T are the library's own types"],
 }
+META["explanation"] += " " + 'FX-sink follows the helper methods of the renderer class that the {var:} renderer calls (transitively): they may write to the stream only through the escaper.'
 
 ENTITIES = {ord("&"): ("HTMLAnd", "&amp;"), ord("<"): ("HTMLLess", "&lt;"), ord(">"): ("HTMLGreater", "&gt;"),
             ord('"'): ("HTMLQuote", "&quot;"), ord("'"): ("HTMLSingleQuote", "&apos;")}
